@@ -48,7 +48,8 @@ fn rule(r: &mut Rng, names: &[String]) -> Rule {
         1 => vec!["DELETE".into(), pat],
         2 => vec!["MODIFY".into(), pat],
         3 => vec!["ALLOW".into(), pat],
-        4 => vec!["REQUIRE".into(), pick_name(r).to_string()],
+        // (now and then a name that is not a well-formed pattern: REQUIRE takes it literally all the same)
+        4 => vec!["REQUIRE".into(), if r.chance(1, 8) { r.pick(&["release[1.tar", "***", "lib**name.so", "[", "a[b", "x**"]).to_string() } else { pick_name(r).to_string() }],
         5 => vec!["DISALLOW".into(), if r.chance(1, 12) { r.pick(&["[", "a**b", "**a", "[!"]).to_string() } else { pat }],
         _ => {
             let mut v: Rule = vec!["MATCH".into(), r.pick(&["*", "a", "foo", "b", "?", "*.c", "x/c", "c", "z", "Foo", "A", "f*"]).to_string()];
@@ -232,6 +233,32 @@ pub fn gen_rules_world(seed: u64) -> SupplyTrace {
         steps[i].exp_mat = rules;
         labels.push("RELAY-ODD-NAME".to_string());
     }
+    // in a tenth of the worlds some links spell some of their paths in another than the normal form
+    if r.chance(1, 10) {
+        for f in files.iter_mut() {
+            if let Body::Link(l) = &mut f.body {
+                for arts in [&mut l.materials, &mut l.products] {
+                    let keys: Vec<String> = arts.keys().cloned().collect();
+                    for k in keys {
+                        if r.chance(1, 3) {
+                            let nk = match r.below(4) {
+                                0 => format!("./{k}"),
+                                1 => k.replacen('/', "//", 1),
+                                2 => format!("x/../{k}"),
+                                _ => k.replacen('/', "/./", 1),
+                            };
+                            if nk != k && !arts.contains_key(&nk) {
+                                if let Some(v) = arts.remove(&k) {
+                                    arts.insert(nk, v);
+                                }
+                            }
+                        }
+                    }
+                }
+            }
+        }
+        labels.push("NON-NORMAL-PATHS".to_string());
+    }
     let now = gen::NOW_DEFAULT;
     let root = LevelSpec {
         layout: LayoutSpec { expires: refmodel::render_rfc3339(now + 86_400, None, ""), readme: String::new(), key_table: (1..=n).collect(), steps, inspect: vec![] },
@@ -283,7 +310,7 @@ pub fn gen_rules_world(seed: u64) -> SupplyTrace {
         });
         labels.push("INSPECTION".into());
     }
-    SupplyTrace { keys, root, caller: vec![(0, 0)], clock: vec![(now, 0)], hash_seeds: vec![r.next()], arrivals: vec![r.next()], file_faults: vec![], labels, work_files, caller_json_alias: vec![], step_name: None, rel_link_dir: false, read_faults: None, fixed_mtime: false, link_dir_style: 0, work_links: vec![], tz: None, same_thread: gen::same_thread_block(seed), via_symlink: None, mem_sigdup: vec![], in_place: false, read_eio: None }
+    SupplyTrace { keys, root, caller: vec![(0, 0)], clock: vec![(now, 0)], hash_seeds: vec![r.next()], arrivals: vec![r.next()], file_faults: vec![], labels, work_files, caller_json_alias: vec![], step_name: None, rel_link_dir: false, read_faults: None, fixed_mtime: false, link_dir_style: 0, work_links: vec![], tz: None, same_thread: gen::same_thread_block(seed), via_symlink: None, mem_sigdup: vec![], in_place: false, read_eio: None, alt_dir_on_odd_reps: false }
 }
 
 pub fn run_c03(_tier: Tier, seed: u64, index: u64, scratch: &Scratch, rec: &mut RunRecord) {
